@@ -66,11 +66,11 @@ Section StepNP.
     destruct base as [b|].
     - destruct st;
         cbv beta iota zeta delta [step mk m_state m_ptr m_eof m_buf m_at m_br m_pw m_url overridden is_some];
-        qwalk; qleaf.
+        cbn [negb andb orb]; qwalk; qleaf.
     - destruct Hok as [Hok|Hok]; [congruence|].
       destruct st; cbn [needs_base] in Hok; try discriminate Hok;
         cbv beta iota zeta delta [step mk m_state m_ptr m_eof m_buf m_at m_br m_pw m_url overridden is_some];
-        qwalk; qleaf.
+        cbn [negb andb orb]; qwalk; qleaf.
   Qed.
 
   Lemma run_NP base ov : forall fuel m, okst base (m_state m) -> run idna_raw c inp base (Some ov) fuel m <> RPanic.
@@ -127,6 +127,234 @@ Section BasicNP.
     destruct baseUrl as [b|].
     - exfalso. apply (BasicParser_override_no_panic input (Some b) u0 ov); [left; discriminate | exact E].
     - split; [reflexivity|].
-      destruct ov; try (exfalso; apply (BasicParser_override_no_panic input None u0 _ (or_intror eq_refl) E)); auto.
+      destruct ov;
+        try (right; right; reflexivity); try (right; left; reflexivity); try (left; reflexivity);
+        exfalso; refine (BasicParser_override_no_panic input None u0 _ _ E); right; reflexivity.
   Qed.
 End BasicNP.
+
+(* ------------------------------------------------------------------------------------------ *)
+(* 3. The record left behind by the tail states PathStart / Path / Query / Fragment under an   *)
+(*    override, with the hypotheses NoPanic.init_ok does not discharge from wf alone:          *)
+(*    - Query: init_ok asks for a non-nil query; not needed (the nil check of the query state   *)
+(*      is only reached without override);                                                      *)
+(*    - PathStart: init_ok asks for a non-opaque path; needed only if the parser fails on       *)
+(*      validation errors (c_fail), see PathStart_opaque_leaves_ill_formed_record below.        *)
+(* ------------------------------------------------------------------------------------------ *)
+
+Lemma handleError_nofail c u t : c_fail c = false -> snd (handleError c u t false) = None.
+Proof. intros H. unfold handleError. cbn [snd orb]. rewrite H. reflexivity. Qed.
+
+Section StepK.
+  Variable idna_raw : str -> str * bool.
+  Variable c : cfg.
+  Variable inp : list rune.
+  Variable base : option url.
+  Variable ov : state.
+
+  Definition pathok (u : url) : Prop := u_opaque u = false \/ c_fail c = false.
+
+  Definition K (m : mstate) : Prop :=
+    m_eof m = false /\
+    match m_state m with
+    | PathStart => wf (m_url m) /\ pathok (m_url m)
+    | PathSt => pathok (m_url m)
+    | QuerySt | FragmentSt => wf (m_url m)
+    | _ => False
+    end.
+
+  Definition PostK (o : outcome) : Prop :=
+    match o with
+    | Panic => False
+    | Cont m' => (m_eof m' = false -> K m') /\ (m_eof m' = true -> wf (m_url m'))
+    | RetUrl u | RetErr u _ | RetNilNil u => wf u
+    end.
+
+  (* a non-failure validation error returns only if the parser fails on validation errors *)
+  Lemma K_mherr u t k :
+    (c_fail c = true -> wf u) ->
+    (forall u', u_path u' = u_path u -> u_opaque u' = u_opaque u -> u_query u' = u_query u -> PostK (k u')) ->
+    PostK (mherr c u t false k).
+  Proof.
+    intros Hfin Hk. unfold mherr. pose proof (sh_handleError c u t false) as Hs. apply sh_inv in Hs.
+    destruct (c_fail c) eqn:Ef.
+    - destruct (handleError c u t false) as [u' [e|]]; cbn [fst] in Hs; destruct Hs as (Hp & Ho & Hq).
+      + cbn. unfold wf in *. rewrite Hp, Ho. auto.
+      + apply Hk; assumption.
+    - pose proof (handleError_nofail c u t Ef) as Hn.
+      destruct (handleError c u t false) as [u' [e|]]; cbn [fst snd] in *; destruct Hs as (Hp & Ho & Hq).
+      + discriminate Hn.
+      + apply Hk; assumption.
+  Qed.
+
+  Ltac kwalk :=
+    repeat first
+      [ progress cbv beta
+      | match goal with
+        | |- PostK (mherr _ _ _ false _) => apply K_mherr; [ intros ?Hcf | intros ?u' ?Hp ?Ho ?Hq ]
+        | |- PostK ((if ?b then _ else _) _) => destruct b eqn:?
+        | |- PostK (if ?b then _ else _) => destruct b eqn:?
+        | |- PostK (match ?x with _ => _ end) => destruct x eqn:?
+        end ].
+
+  Ltac knorm :=
+    unfold PostK, K, pathok, wf, mk, addSegment in *;
+    cbn [m_state m_url m_eof u_path u_opaque u_query
+         set_input set_scheme set_username set_password set_host set_port set_path set_query set_fragment set_verrs set_sp] in *.
+
+  Ltac kfin :=
+    first
+      [ discriminate
+      | congruence
+      | assumption
+      | solve [ match goal with
+                | H : u_opaque ?y = true -> u_path ?y <> [] |- u_path ?x <> [] =>
+                    let E := fresh in intro E; apply H; congruence
+                end ]
+      | solve [eapply replaceLast_path; eassumption]
+      | solve [eapply replace_last_nonnil; eassumption]
+      | solve [left; congruence]
+      | solve [right; congruence]
+      | solve [exfalso; unfold rune_error in *; lia] ].
+
+  Ltac kleaf :=
+    knorm;
+    repeat match goal with |- context [if ?b then _ else _] => destruct b eqn:? end;
+    knorm;
+    intros; repeat split; intros;
+    repeat match goal with H : _ /\ _ |- _ => destruct H end;
+    first [ solve [kfin]
+          | solve [ match goal with H : _ \/ _ |- _ => destruct H; kfin end ]
+          | idtac ].
+
+  Lemma step_K m : K m -> PostK (step idna_raw c inp base (Some ov) m).
+  Proof.
+    intros HK. destruct m as [st p e buf aF brF pwF u].
+    unfold K in HK. cbn [m_state m_url m_eof] in HK. destruct HK as (He & HK). subst e.
+    destruct st; try contradiction;
+      cbv beta iota zeta delta [step mk m_state m_ptr m_eof m_buf m_at m_br m_pw m_url overridden is_some isSpecialSchemeAndBackslash];
+      destruct (n_inp inp <=? p + 1)%Z eqn:En;
+      rewrite ?re_35, ?re_37, ?re_47, ?re_63, ?re_92;
+      cbn [negb andb orb];
+      rewrite ?orb_false_r, ?andb_false_r, ?orb_true_r, ?andb_true_r;
+      cbn [negb andb orb];
+      kwalk; kleaf.
+  Qed.
+End StepK.
+
+(* what is left behind: a well-formed record (no panic, no fuel exhaustion) *)
+Definition left_wf (r : result) : Prop :=
+  match r with
+  | RUrl u | RErr u _ | RNilNil u => wf u
+  | RPanic | ROutOfFuel => False
+  end.
+
+Definition tail_init (c : cfg) (ov : state) (u : url) : Prop :=
+  wf u /\
+  match ov with
+  | PathStart => pathok c u
+  | QuerySt | FragmentSt => True
+  | _ => False
+  end.
+
+Section BasicK.
+  Variable idna_raw : str -> str * bool.
+  Variable c : cfg.
+
+  Lemma run_K inp base ov : forall fuel m, K c m ->
+    match run idna_raw c inp base (Some ov) fuel m with
+    | RPanic => False | ROutOfFuel => True | RUrl u | RErr u _ | RNilNil u => wf u end.
+  Proof.
+    induction fuel as [|f IH]; intros m HK; [exact I|].
+    cbn [run]. pose proof (step_K idna_raw c inp base ov m HK) as HP.
+    destruct (step idna_raw c inp base (Some ov) m) as [m'|u'|u' e'|u'|]; cbn [PostK] in HP; try exact HP.
+    destruct HP as [H1 H2]. destruct (m_eof m') eqn:Ee; [apply H2; reflexivity | apply IH; apply H1; reflexivity].
+  Qed.
+
+  Lemma tail_init_sh ov u u' : sh u' = sh u -> tail_init c ov u -> tail_init c ov u'.
+  Proof.
+    intros Hs [Hw Ht]. split; [apply (wfp_sh true u u' Hs Hw)|].
+    apply sh_inv in Hs. destruct Hs as (Hp & Ho & Hq). destruct ov; auto. unfold pathok in *. rewrite Ho. exact Ht.
+  Qed.
+
+  Lemma tail_init_K ov u : tail_init c ov u -> K c (mk ov (-1) false [] false false false u).
+  Proof.
+    intros [Hw Ht]. unfold K, mk. cbn [m_eof m_state m_url]. split; [reflexivity|].
+    destruct ov; try contradiction; auto.
+  Qed.
+
+  Lemma bp_start_K baseUrl ov u : tail_init c ov u -> left_wf (bp_start idna_raw c baseUrl (Some ov) u).
+  Proof.
+    intros Hi. unfold bp_start.
+    assert (Hk : forall u1, tail_init c ov u1 ->
+      left_wf (run idna_raw c (decode (u_input u1)) (option_map clone baseUrl) (Some ov)
+        (fuel_of (length (decode (u_input u1)))) (mk (start_state (Some ov)) (-1)%Z false [] false false false u1))).
+    { intros u1 H1. cbn [start_state].
+      pose proof (run_K (decode (u_input u1)) (option_map clone baseUrl) ov (fuel_of (length (decode (u_input u1)))) _
+                    (tail_init_K ov u1 H1)) as HR.
+      pose proof (run_never_out_of_fuel idna_raw c (decode (u_input u1)) (option_map clone baseUrl) (Some ov)
+                    (mk ov (-1)%Z false [] false false false u1)) as HF.
+      destruct (run idna_raw c (decode (u_input u1)) (option_map clone baseUrl) (Some ov)
+                  (fuel_of (length (decode (u_input u1)))) (mk ov (-1)%Z false [] false false false u1));
+        cbn [left_wf]; auto. }
+    destruct (remove_tabnl_sv (c_acceptInvalid c) (u_input u)) as [i changed]. cbv zeta.
+    destruct changed; [|apply Hk; exact Hi].
+    pose proof (sh_handleError c u InvalidURLUnit false) as Hh.
+    destruct (handleError c u InvalidURLUnit false) as [u' [e|]]; cbn [fst] in Hh.
+    - cbn [left_wf]. apply (wfp_sh true u u' Hh). apply Hi.
+    - apply Hk. apply (tail_init_sh ov u); [|exact Hi]. change (sh (set_input u' i)) with (sh u'). exact Hh.
+  Qed.
+
+  Lemma BasicParser_tail_left_wf input baseUrl u ov :
+    tail_init c ov u -> left_wf (BasicParser idna_raw c input baseUrl (Some u) (Some ov)).
+  Proof.
+    intros Hi. rewrite BasicParser_eq. apply bp_start_K. apply (tail_init_sh ov u); [reflexivity | exact Hi].
+  Qed.
+
+  (* from NoPanic.BP_Post: the override states of the setters, under init_ok *)
+  Lemma BasicParser_init_left_wf input baseUrl u ov :
+    (forall b, baseUrl = Some b -> wf b) -> init_ok true (Some ov) u ->
+    left_wf (BasicParser idna_raw c input baseUrl (Some u) (Some ov)).
+  Proof.
+    intros Hb Hi. destruct (BP_Post idna_raw c true input baseUrl (Some u) (Some ov) Hb Hi) as [HP HF].
+    destruct (BasicParser idna_raw c input baseUrl (Some u) (Some ov)); cbn in HP |- *.
+    - apply HP.
+    - apply HP. reflexivity.
+    - apply HP.
+    - exact HP.
+    - congruence.
+  Qed.
+End BasicK.
+
+(* the state overrides the library's own setters use: SchemeStart(1) SetProtocol, Host(10) SetHost, Hostname(11) SetHostname,
+   Port(15) SetPort, PathStart(17) SetPathname, Query(18) SetSearch, Fragment(19) SetHash *)
+Definition setter_state (st : state) : Prop :=
+  In st [SchemeStart; HostSt; HostnameSt; PortSt; PathStart; QuerySt; FragmentSt].
+
+(* no panic: neither the record nor the base matters *)
+Theorem direct_setter_states_no_panic : forall idna_raw c input base u0 st,
+  setter_state st -> BasicParser idna_raw c input base u0 (Some st) <> RPanic.
+Proof.
+  intros idna_raw c input base u0 st Hst. apply BasicParser_override_no_panic. right.
+  unfold setter_state in Hst. cbn [In] in Hst.
+  destruct Hst as [<-|[<-|[<-|[<-|[<-|[<-|[<-|[]]]]]]]]; reflexivity.
+Qed.
+
+(* the record left behind is well formed again. The only hypothesis beyond wf u (and wf of the base, which the proof
+   through NoPanic.BP_Post carries along): for PathStart, a non-opaque path OR a parser that does not fail on validation errors *)
+Theorem direct_setter_states_total : forall idna_raw c input base u st,
+  setter_state st -> wf u -> (forall b, base = Some b -> wf b) ->
+  (st = PathStart -> u_opaque u = false \/ c_fail c = false) ->
+  left_wf (BasicParser idna_raw c input base (Some u) (Some st)).
+Proof.
+  intros idna_raw c input base u st Hst Hw Hb Hps.
+  unfold setter_state in Hst. cbn [In] in Hst.
+  destruct Hst as [<-|[<-|[<-|[<-|[<-|[<-|[<-|[]]]]]]]].
+  - apply BasicParser_init_left_wf; [exact Hb|]. cbn. auto.
+  - apply BasicParser_init_left_wf; [exact Hb|]. cbn. auto.
+  - apply BasicParser_init_left_wf; [exact Hb|]. cbn. auto.
+  - apply BasicParser_init_left_wf; [exact Hb|]. cbn. auto.
+  - apply BasicParser_tail_left_wf. split; [exact Hw | apply Hps; reflexivity].
+  - apply BasicParser_tail_left_wf. split; [exact Hw | exact I].
+  - apply BasicParser_tail_left_wf. split; [exact Hw | exact I].
+Qed.
